@@ -157,7 +157,9 @@ func determineCompletionContext(content string, pos protocol.Position, ctx *prot
 		return ContextAccount
 	}
 
-	if strings.HasPrefix(line, "    ") || strings.HasPrefix(line, "\t") {
+	// a posting line is indented by any amount of blanks (hledger wants at
+	// least one; the formatter itself writes indentSize of them)
+	if strings.HasPrefix(line, " ") || strings.HasPrefix(line, "\t") {
 		return determinePostingContext(line, pos)
 	}
 
@@ -405,18 +407,26 @@ func extractAccountPrefix(content string, pos protocol.Position) string {
 		byteCol = len(line)
 	}
 
-	beforeCursor := strings.TrimSpace(line[:byteCol])
+	// the account being typed starts after the directive keyword, or after the
+	// indent, status mark and bracket of a posting; it may contain blanks
+	// ("assets:my bank:ch"), so the last blank says nothing about where it begins
+	beforeCursor := line[:byteCol]
+	start := 0
+	switch {
+	case strings.HasPrefix(beforeCursor, directiveApplyAccount):
+		start = len(directiveApplyAccount)
+	case strings.HasPrefix(beforeCursor, directiveAccount):
+		start = len(directiveAccount)
+	default:
+		start = accountFragmentStart(beforeCursor)
+	}
+	fragment := strings.TrimLeft(beforeCursor[start:], " \t")
 
-	lastColon := strings.LastIndex(beforeCursor, ":")
+	lastColon := strings.LastIndex(fragment, ":")
 	if lastColon == -1 {
 		return ""
 	}
-
-	start := strings.LastIndexAny(beforeCursor[:lastColon], " \t")
-	if start == -1 {
-		return beforeCursor[:lastColon+1]
-	}
-	return beforeCursor[start+1 : lastColon+1]
+	return fragment[:lastColon+1]
 }
 
 func getAccountsForPrefix(accounts *analyzer.AccountIndex, prefix string) []string {
@@ -756,6 +766,25 @@ func findCommodityStart(line string, byteCol int) int {
 		commodityStart++
 	}
 
+	// with a cost or a balance assertion before the cursor, the commodity being
+	// typed is the one after the number that follows the last "@" or "="
+	if commodityStart < byteCol && byteCol <= len(line) {
+		if op := strings.LastIndexAny(line[commodityStart:byteCol], "@="); op >= 0 {
+			i := commodityStart + op + 1
+			skipBlanks := func() {
+				for i < byteCol && line[i] == ' ' {
+					i++
+				}
+			}
+			skipBlanks()
+			for i < byteCol && (isDigitOrSign(line[i]) || line[i] == '.' || line[i] == ',' || line[i] == '_') {
+				i++
+			}
+			skipBlanks()
+			commodityStart = i
+		}
+	}
+
 	return commodityStart
 }
 
@@ -802,17 +831,15 @@ func extractQueryText(content string, pos protocol.Position, ctxType CompletionC
 		if after, found := strings.CutPrefix(beforeCursor, directiveCommodity); found {
 			return after
 		}
-		trimmed := strings.TrimLeft(beforeCursor, " \t")
-		separatorIdx := findDoublespace(trimmed)
-		if separatorIdx == -1 {
+		if findDoublespace(strings.TrimLeft(beforeCursor, " \t")) == -1 {
 			return ""
 		}
-		afterAccount := strings.TrimLeft(trimmed[separatorIdx:], " ")
-		amountEnd := findAmountEnd(afterAccount)
-		if amountEnd >= len(afterAccount) {
+		// the same start as the edit range: what is filtered is what is replaced
+		start := findCommodityStart(line, byteCol)
+		if start >= byteCol {
 			return ""
 		}
-		return strings.TrimLeft(afterAccount[amountEnd:], " ")
+		return beforeCursor[start:]
 
 	default:
 		return ""
